@@ -14,14 +14,15 @@ import (
 )
 
 type EvalCtx struct {
-	x     *Exec
-	st    *State
-	old   *State
-	env   map[string]Value
-	sf    *SpecFile
-	fr    *Frame
-	pos   token.Pos
-	depth int
+	x      *Exec
+	st     *State
+	old    *State
+	env    map[string]Value
+	sf     *SpecFile
+	fr     *Frame
+	pos    token.Pos
+	depth  int
+	atCall bool
 }
 
 type specErr struct{ msg string }
@@ -201,6 +202,20 @@ func (x *Exec) eval(c *EvalCtx, e SExpr) Value {
 			}
 		}
 		return Value{T: t, Term: w.MkStruct(t, args)}
+	case *SAssert:
+		v := x.eval(c, n.X)
+		t, err := w.ResolveType(c.sf, n.Type)
+		if err != nil {
+			panic(c.errf(e, "%v", err))
+		}
+		if v.Term == nil || v.Term.Sort != SIface {
+			panic(c.errf(e, "x.(T) needs an interface value"))
+		}
+		bn := w.boxName(t)
+		if !w.boxedSeen[bn] {
+			panic(c.errf(e, "type %s is never stored in an interface", t))
+		}
+		return Value{T: t, Term: w.Reg.Apply("unbox:"+bn, v.Term)}
 	case *SIs:
 		v := x.eval(c, n.X)
 		t, err := w.ResolveType(c.sf, n.Type)
@@ -465,6 +480,19 @@ func (x *Exec) evalLocs(c *EvalCtx, e SExpr) []*Loc {
 			if v.Loc != nil {
 				return []*Loc{v.Loc}
 			}
+			if v.Term != nil && v.Term.Sort == SIface {
+				// *v for an interface value: the pointee of whichever pointer type it holds
+				var out []*Loc
+				for _, bt := range x.w.boxed {
+					pt, ok := types.Unalias(bt).Underlying().(*types.Pointer)
+					if !ok {
+						continue
+					}
+					bn := x.w.boxName(bt)
+					out = append(out, &Loc{Ref: x.w.Reg.Apply("unbox:"+bn, v.Term), RootT: pt.Elem(), Cond: x.w.Reg.Is("box:"+bn, v.Term)})
+				}
+				return out
+			}
 			return []*Loc{x.ptrLoc(c.st, v)}
 		}
 	case *SIdent:
@@ -498,7 +526,7 @@ func (x *Exec) evalBinary(c *EvalCtx, n *SBinary) Value {
 			} else if b.Term.Sort == SIface {
 				eq = Eq(x.w.Box(a.T, a.Term), b.Term)
 			} else {
-				panic(c.errf(n, "comparison of %s with %s", a.T, b.T))
+				panic(c.errf(n, "comparison of %s (%s: %s) with %s (%s: %s)", a.T, a.Term.Sort, a.Term, b.T, b.Term.Sort, b.Term))
 			}
 		} else {
 			eq = x.valuesEqual(c.st, a, b)
@@ -578,6 +606,9 @@ func (x *Exec) evalCall(c *EvalCtx, n *SCall) Value {
 		content := x.heapRead(c.st, m.Term, m.T)
 		return Value{T: boolT, Term: And(Neq(m.Term, IntT(0)), w.Reg.Apply("has:"+mv, content, k.Term))}
 	case "fresh":
+		if c.atCall {
+			panic(c.errf(n, "fresh(..) must not be used in a contract that is applied at call sites; use a `fresh r [when c]` clause"))
+		}
 		v := x.eval(c, n.Args[0])
 		return Value{T: boolT, Term: Gt(x.specTerm(c, v), Var("alloc0", SInt))}
 	case "allocated":
@@ -596,6 +627,27 @@ func (x *Exec) evalCall(c *EvalCtx, n *SCall) Value {
 		a := x.eval(c, n.Args[0])
 		b := x.eval(c, n.Args[1])
 		return Value{T: a.T, Term: w.SlApp(a.Term, b.Term)}
+	case "apply":
+		// apply(f, args...): the (first) result of calling function value f, as the engine models dynamic calls
+		f := x.eval(c, n.Args[0])
+		sig, ok := types.Unalias(f.T).Underlying().(*types.Signature)
+		if !ok || sig.Results().Len() < 1 {
+			panic(c.errf(n, "apply needs a function value with a result"))
+		}
+		sorts := []string{SInt}
+		ts := []*Term{x.termOf(c.st, f)}
+		for i, a := range n.Args[1:] {
+			av := x.eval(c, a)
+			if i < sig.Params().Len() {
+				av = x.coerce(c, av, sig.Params().At(i).Type(), n)
+			}
+			sorts = append(sorts, av.Term.Sort)
+			ts = append(ts, av.Term)
+		}
+		rt := sig.Results().At(0).Type()
+		name := fmt.Sprintf("dyncall%d:%s", 0, mangleSort(strings.Join(sorts, ",")))
+		w.Reg.DeclareFunc(name, sorts, w.SortOf(rt))
+		return Value{T: rt, Term: w.Reg.Apply(name, ts...)}
 	case "seq1":
 		// one-element slice of the argument's type
 		v := x.eval(c, n.Args[0])
